@@ -89,9 +89,6 @@ def run(mir_path, scenario, src_dir):
         for c in w:
             ctx.assume(is_letter(c))
         md_w = builder.any("WordMetadata", "meta")
-        dcell = Cell(it.call_fn(f_new[0], []))
-        vec = VecObj([Int(c, 32) for c in w])
-        it.call_fn(f_append[0], [Ref(dcell), SliceRef(vec, 0, lw), md_w])
         names = [f for f, _t in structs["WordMetadata"]]
         # dialects: the rule only compares them for equality, so K of the four values are enough to exercise every outcome
         DI = enums["Dialect"][:ndial]
@@ -101,6 +98,9 @@ def run(mir_path, scenario, src_dir):
             ("None", 0, lambda: []),
             ("Some", 1, lambda: [LazyEnum(ctx, z3.BitVec("word-dialect!", 8), [(v, i, (lambda: [])) for i, v in enumerate(DI)])])])
         dialect_w = md_w.fields[names.index("dialect")]
+        dcell = Cell(it.call_fn(f_new[0], []))
+        vec = VecObj([Int(c, 32) for c in w])
+        it.call_fn(f_append[0], [Ref(dcell), SliceRef(vec, 0, lw), md_w])
         sc = Adt("SpellCheck", [dcell.v, LruObj(), active])
         # ---- the document
         toks, chars, words = [], [], []
